@@ -237,19 +237,29 @@ Definition commodity_ok (v : str) (c : str) : bool :=
 Definition entry_label (e : sentry) : str :=
   match e with EOpen _ a => a | EClose _ a => a | ETxn _ desc _ => desc end.
 
+(* the state after an entry: an open directive puts the account (with the directive's date)
+   into force, a close directive removes it and is remembered *)
+Definition next_state (st : bstate) (e : sentry) : bstate :=
+  let last := Z.max (entry_date e) (st_last st) in
+  match e with
+  | EOpen d a => mkBst last ((a, d) :: st_open st) (st_closed st)
+  | EClose _ a => mkBst last (filter (fun x => negb (str_eqb a (fst x))) (st_open st)) (a :: st_closed st)
+  | ETxn _ _ _ => mkBst last (st_open st) (st_closed st)
+  end.
+
+Definition state_after (es : list sentry) : bstate := fold_left next_state es bst_init.
+
 Definition check_entry (v : str) (st : bstate) (e : sentry) : list violation * bstate :=
   let d := entry_date e in
   let vo := if d <? st_last st then [mkViol k_order (entry_label e) false] else [] in
-  let last := Z.max d (st_last st) in
-  match e with
-  | EOpen _ a => (vo, mkBst last ((a, d) :: st_open st) (st_closed st))
-  | EClose _ a => (vo, mkBst last (filter (fun x => negb (str_eqb a (fst x))) (st_open st)) (a :: st_closed st))
-  | ETxn _ desc ps =>
-    (vo ++ (if txn_balanced_b ps then [] else [mkViol k_unbalanced desc false])
-        ++ (if forallb (fun x => commodity_ok v (commodity_of x)) ps then [] else [mkViol k_commodity desc false])
-        ++ flat_map (check_posting st d desc) ps,
-     mkBst last (st_open st) (st_closed st))
-  end.
+  (vo ++ match e with
+         | ETxn _ desc ps =>
+           (if txn_balanced_b ps then [] else [mkViol k_unbalanced desc false])
+           ++ (if forallb (fun x => commodity_ok v (commodity_of x)) ps then [] else [mkViol k_commodity desc false])
+           ++ flat_map (check_posting st d desc) ps
+         | _ => []
+         end,
+   next_state st e).
 
 Fixpoint check_entries (v : str) (st : bstate) (es : list sentry) : list violation :=
   match es with
